@@ -187,7 +187,7 @@ func BoolHelperSummary(f *ssa.Function, cfg CountCfg) (onTrue, onFalse CountSet,
 		if !isRet {
 			return 0, 0, false
 		}
-		b, isConst := ConstBool(r.Results[0])
+		b, isConst := ConstBool(ReturnValue(r, 0))
 		if !isConst {
 			return 0, 0, false
 		}
